@@ -206,7 +206,7 @@ CLAIMED["C15"] = (
     "byte string added is present; different byte strings get different parts (SHA-1 injectivity is the stated hypothesis); "
     "a new part carries the extension and content type of the image's format, not of its file name (structural: the file "
     "name is not an input); the integer DPI is always in 1..2048; native size is the exact floor of 914400*px/dpi; with one "
-    "dimension given the other preserves the aspect ratio to within half a unit; 0 and None are both 'not given'.  Tied to "
+    "dimension given the other preserves the aspect ratio to within half a unit; both given: exactly those, 0 included (None alone means 'not given').  Tied to "
     "the code by exact comparison of part names/extensions/content types, DPI normalisation, native sizes and scaled sizes "
     "on images generated with Pillow (5 formats, absent/fractional/0/huge/non-square DPI, misleading file names), added "
     "as pictures, placeholders, movie posters and OLE icons with saves and re-opens in between, plus zip-level oracles.",
@@ -222,14 +222,21 @@ CLAIMED["C07"] = (
     "order value given to a cloned series is larger than every value in use; for EVERY category forest of uniform depth "
     "(any branching, any number of leaves) the flattened labels the reader derives from the levels the writer emits - "
     "parent = last entry before the first whose idx exceeds the leaf's - are exactly the root-to-leaf label paths "
-    "(flattened_spec, by induction over levels and forests).  Tied to the code by exact comparison of the "
+    "(flattened_spec, by induction over levels and forests); and for replace_data's series bookkeeping (Model/Replace: plots in "
+    "document order, series in document order read through a stable sort by c:order, clone / trim / adjust) for EVERY chart "
+    "and requested count: exactly the requested number of series afterwards, the surviving series are the same elements with "
+    "the same idx, order and formatting, added series carry the formatting of the series cloned, idx values stay distinct "
+    "and order values stay distinct, the call is refused exactly when series are asked for and the chart has none, plots "
+    "left without series are removed and no other plot is - along any history of calls (run_inv).  Tied to the code by the "
+    "series population read from the raw XML before / after every replace_data (incl. permuted idx / order, foreign document "
+    "order, combination charts, trailing empty plots) compared with the model, by exact comparison of the "
     "value caches with the model for every writable chart type (probed) x seeded data x replace_data sequences, and by "
     "oracles on the real output: chart part validated with lxml against dml-chart.xsd (after markup-compatibility "
     "preprocessing), names / values / categories / flattened hierarchy labels against the data supplied (root-to-leaf paths "
     "of the supplied tree), idx/order uniqueness, formatting of surviving series kept by replace_data.",
     "XML validity is oracle-checked, not proved; three "
     "genuine template defects are listed as known findings (negative axId values, c:smooth in radar series, single-series pie).",
-    "Lean 4 proof (cache round trip, hierarchy flattening by induction) + correspondence + XSD/read-back oracles",
+    "Lean 4 proof (cache round trip, hierarchy flattening by induction, replace_data series bookkeeping: stable-sort lemmas + invariant over histories) + correspondence + XSD/read-back oracles",
     "DESIGN.md §5 C07",
 )
 CLAIMED["C08"] = (
